@@ -37,6 +37,11 @@ def main(argv):
     tier = argv[1]
     if tier not in ("quick", "thorough"):
         tier = os.environ.get("VERIF_TIER", "quick")
+    # A check always ends: every exploration job (also the ones split off later) stops at this instant at the latest and the
+    # units left over are UNDECIDED - never a verdict. (unchanged tree: quick < 2 min, thorough < 45 min per property)
+    import time as _time
+    budget = float(os.environ.get("PYVC_CHECK_BUDGET_S", "1500" if tier == "quick" else "14400"))
+    os.environ["PYVC_CHECK_DEADLINE"] = repr(_time.time() + budget)
     from pyvc import vu
     units = []
     for mk in entry["units"]:
